@@ -73,6 +73,17 @@ def apply_unified_diff(tree, diff_text):
     return out
 
 
+EXPECT_FILE = os.path.join(HERE, 'selftest_expect.json')
+
+
+def expected_caught(prop):
+    """ids recorded (tools: python3-vt -m sa.selftest --record) as caught with a finding."""
+    if not os.path.exists(EXPECT_FILE):
+        return []
+    with open(EXPECT_FILE) as fh:
+        return json.load(fh).get(prop, [])
+
+
 def seeded(prop=None):
     base = os.path.join(os.path.dirname(HERE), 'seeded')
     out = []
@@ -146,7 +157,13 @@ def run(prop, seed=0, jobs=16, base_keys=None):
 if __name__ == '__main__':
     import sys
     sys.path.insert(0, os.path.dirname(HERE))
-    props = sys.argv[1:] or sorted({p for m in load_mutants() for p in m['props']})
+    record = '--record' in sys.argv
+    argv = [a for a in sys.argv[1:] if a != '--record']
+    props = argv or sorted({p for m in load_mutants() + seeded() for p in m['props']})
+    rec = {}
+    if record and os.path.exists(EXPECT_FILE):
+        with open(EXPECT_FILE) as fh:
+            rec = json.load(fh)
     for p in props:
         try:
             r = run(p)
@@ -156,3 +173,8 @@ if __name__ == '__main__':
         print(p, {k: r[k] for k in ('mutants', 'caught', 'fail_closed', 'skipped', 'missed')})
         for k in r['fail_closed']:
             print('   ', k, r['detail'][k])
+        if record:
+            rec[p] = sorted(set(r['caught']))
+    if record:
+        with open(EXPECT_FILE, 'w') as fh:
+            json.dump(rec, fh, indent=1, sort_keys=True)
